@@ -198,6 +198,9 @@ def gen_path(r, regions, opts):
             else:
                 ops.append(("eonly", a if retracted else -a))
             retracted = not retracted
+        elif k < 0.64 and not retracted and not opts.get("fw"):
+            # an extruder-only extrusion of its own (prime / purge), not part of a retract cycle
+            ops.append(("eonly", r.choice([0.5, 2.0, 5.0])))
         elif k < 0.68:
             z = round(z + (r.choice([0.2, 0.4, -0.2]) if z > 0.4 else 0.2), 4)
             ops.append(("z", z))
